@@ -1,0 +1,41 @@
+//go:build verif
+
+/*
+SPDX-License-Identifier: Apache-2.0
+*/
+
+package ws
+
+import (
+	"nhooyr.io/websocket"
+
+	"github.com/hyperledger/aries-framework-go/pkg/didcomm/transport"
+)
+
+// VerifPool gives a verification harness access to the connection pool's add/fetch/remove.
+type VerifPool struct {
+	p *connPool
+}
+
+// VerifGetConnPool calls getConnPool (the process-wide pool registry).
+func VerifGetConnPool(prov transport.Provider) *VerifPool {
+	return &VerifPool{p: getConnPool(prov)}
+}
+
+// Add calls add with a nil connection.
+func (v *VerifPool) Add(verKey string) { v.p.add(verKey, (*websocket.Conn)(nil)) }
+
+// Fetch calls fetch and tells whether an entry was present... a nil connection is stored, so presence is
+// all there is to see.
+func (v *VerifPool) Fetch(verKey string) bool {
+	v.p.RLock()
+	_, ok := v.p.connMap[verKey]
+	v.p.RUnlock()
+
+	_ = v.p.fetch(verKey)
+
+	return ok
+}
+
+// Remove calls remove.
+func (v *VerifPool) Remove(verKey string) { v.p.remove(verKey) }
